@@ -23,7 +23,8 @@ from cryptography.x509.oid import ExtendedKeyUsageOID, NameOID
 
 warnings.simplefilter("ignore")
 CERTS = os.path.join(WORK, "certs", "c16")
-CAS = ["default", "ski256", "noski", "chain"]
+CAS = ["default", "ski256", "noski", "chain", "default2", "default3"]
+SAME_DN = ["default", "default2", "default3"]      # three independently generated mitmproxy CAs: same subject DN, different keys
 KIND = {"email": 1, "uri": 6, "dirname": 4, "rid": 8, "other": 0}
 
 
@@ -45,6 +46,8 @@ def _ca_cert(subject_cn, key, issuer_name=None, issuer_key=None, ski="sha1", pat
     elif ski == "sha256":
         der = key.public_key().public_bytes(serialization.Encoding.DER, serialization.PublicFormat.SubjectPublicKeyInfo)
         b = b.add_extension(x509.SubjectKeyIdentifier(hashlib.sha256(der).digest()[:20]), critical=False)
+    if issuer_key is not None:
+        b = b.add_extension(x509.AuthorityKeyIdentifier.from_issuer_public_key(issuer_key.public_key()), critical=False)
     return b.sign(issuer_key or key, hashes.SHA256())
 
 
@@ -58,7 +61,7 @@ def ensure_cas():
         f = os.path.join(d, "mitmproxy-ca.pem")
         if os.path.exists(f): continue
         os.makedirs(d, exist_ok=True)
-        if name == "default":
+        if name.startswith("default"):
             certs.CertStore.create_store(Path(d), "mitmproxy", 2048)
             continue
         key = rsa.generate_private_key(65537, 2048)
@@ -96,8 +99,17 @@ def env():
             ta.configure({"confdir"})
             chain = x509.load_pem_x509_certificates(open(os.path.join(d, "mitmproxy-ca.pem"), "rb").read())
             tas[name] = (ta, chain)
-        _ENV = (tctx, tas, cm)
+        _ENV = (tctx, tas, cm, {"ta": tlsconfig.TlsConfig(), "dirs": dirs})
     return _ENV[0], _ENV[1]
+
+
+def switched(ca):
+    """ONE TlsConfig instance whose confdir option is switched to this CA (as a user changing confdir / regenerating the CA would)"""
+    tctx, tas = env()
+    sw = _ENV[3]
+    tctx.options.update(confdir=sw["dirs"][ca])
+    sw["ta"].configure({"confdir"})
+    return sw["ta"], tas[ca][1]
 
 
 _UPKEY = None
@@ -260,12 +272,13 @@ class Check(PropertyCheck):
                   "server address) are not encodable by ipaddress/idna — never because of upstream names; (b) strict == ref-invalid (the verifier refuses the "
                   "reference identifier): chain verified for another SAN, name clause by names_match(); (c) not_valid_before is snapped to the generated offset within "
                   "1.5 s of the call window (clock reading); (d) ValueError/TypeError from get_cert are observed as `raised`, anything else surfaces as a harness "
-                  "error; (e) the certificate store is emptied before each case (C17's subject). Expected values come from the case (classification of the case's "
+                  "error; (e) the certificate store is emptied before each case (C17's subject); (f) OpenSSL's X509_STRICT verdict on the chain is demanded only when the configured CA has a SubjectKeyIdentifier (strict mode rejects an SKI-less CA whatever the leaf is). Expected values come from the case (classification of the case's "
                   "strings, upstream names as minted) and from the independent verifier; no clause compares two outputs of get_cert.")
     technique = "Lean 4 proof (all requests, parametric in the name classifier) + translator for validity offsets/CN bounds + differential run with an independent strict X.509 verifier"
     rule = ("grid of SNI forms (none, 63/64-byte labels, 253-byte names, IDN, A-labels, wildcard-looking, IPv4/IPv6, case, underscore, trailing dot) x local "
             "address x server address x upstream certificate shapes (CN/SAN/O/CRLDP incl. non-hostname CNs, empty and non-DNS SANs) x CA configuration "
-            "(own CA, custom SKI, no SKI, intermediate+root); then random combinations. distinct = distinct case; non-trivial = a certificate was produced.")
+            "(own CA, custom SKI, no SKI, intermediate+root, two more own CAs with the SAME subject DN); histories: one TlsConfig whose confdir is switched between CAs of equal DN, "
+            "each leaf verified against the CA current at issue; then random combinations. distinct = distinct case; non-trivial = a certificate was produced.")
     budget = {"quick": 1200, "thorough": 12000}
     time_budget = {"quick": 35, "thorough": 500}
     fingerprints = ["mitmproxy.addons.tlsconfig:TlsConfig.get_cert", "mitmproxy.addons.tlsconfig:_ip_or_dns_name",
@@ -323,6 +336,13 @@ class Check(PropertyCheck):
         yield case("default", "example.com", "127.0.0.1", "10.0.0.1", UPS[1], opt=False)
         # the requested identity is an IP (SNI literal, or no SNI -> local address) that the upstream certificate spells as dNSName:
         # the leaf must still carry it as iPAddress, or a strict verifier rejects it for that address
+        # histories over CAs with the SAME subject DN (every default mitmproxy CA is CN=mitmproxy,O=mitmproxy) within one process
+        for a in SAME_DN:
+            for b_ in SAME_DN:
+                if a != b_:
+                    yield {"hist": [[a, "example.com"], [b_, "example.com"]], "local": "127.0.0.1", "addr": "10.0.0.1", "up": None, "upstream_opt": True}
+        yield {"hist": [["default", "a.example"], ["default2", "192.0.2.1"], ["default3", None], ["default", "b.example"], ["noski", "c.example"], ["default2", "d.example"]],
+               "local": "127.0.0.1", "addr": None, "up": UPS[1], "upstream_opt": True}
         # wildcard SAN upstream x requested name 0,1,2,3 labels below the wildcard's base (SNI, or no SNI and the name as server address)
         for i in WILD + [15]:
             for n in WILD_NAMES:
@@ -334,16 +354,28 @@ class Check(PropertyCheck):
                 for addr in (None, "10.0.0.1", "192.0.2.1"):
                     yield case("default", sni, local, addr, UPS[i])
         while True:
+            if rng.chance(0.06):
+                yield {"hist": [[rng.pick(SAME_DN) if rng.chance(0.8) else rng.pick(CAS), rng.pick(["example.com", "192.0.2.1", None, "www.example.com"])]
+                                for _ in range(rng.randint(2, 5))],
+                       "local": rng.pick(LOCALS), "addr": rng.pick(ADDRS[:5]), "up": rng.pick(UPS) if rng.chance(0.4) else None, "upstream_opt": True}
+                continue
             yield case(rng.pick(CAS) if rng.chance(0.3) else "default", rng.pick(SNIS), rng.pick(LOCALS), rng.pick(ADDRS),
                        rng.pick(UPS) if rng.chance(0.7) else None, opt=rng.chance(0.9))
 
     # ---- implementation -----------------------------------------------------------------------------------------
     def impl(self, case):
+        if "hist" in case:
+            # a history within one process: the same TlsConfig is pointed at one CA after the other (same subject DN, different keys);
+            # every leaf is judged against the CA that is current when it is issued
+            return {"leaves": [self._one(dict(case, ca=h[0], sni=h[1]), *switched(h[0])) for h in case["hist"]]}
+        tctx, tas = env()
+        return self._one(case, *tas[case["ca"]])
+
+    def _one(self, case, ta, chain):
         from mitmproxy import connection, certs
         from mitmproxy.proxy import context
         from mitmproxy.connection import ConnectionState
         tctx, tas = env()
-        ta, chain = tas[case["ca"]]
         ca = chain[0]
         tctx.options.upstream_cert = bool(case["upstream_opt"])
         ta.certstore.certs = {}; ta.certstore.expire_queue = []
@@ -426,6 +458,14 @@ class Check(PropertyCheck):
                 return s
             except ValueError:
                 return None
+        # a second strict verifier, OpenSSL with X509_V_FLAG_X509_STRICT (chain only; e.g. "authority and subject key identifier mismatch")
+        from OpenSSL import crypto
+        st = crypto.X509Store(); st.add_cert(crypto.X509.from_cryptography(chain[-1])); st.set_flags(crypto.X509StoreFlags.X509_STRICT)
+        try:
+            crypto.X509StoreContext(st, crypto.X509.from_cryptography(cert), [crypto.X509.from_cryptography(x) for x in inter]).verify_certificate()
+            obs["ossl_strict"] = "ok"
+        except crypto.X509StoreContextError as e:
+            obs["ossl_strict"] = "fail:" + str(e)[:120]
         rt = classify(req)
         subj = subject_of(rt) if rt else None
         if subj is not None:
@@ -454,7 +494,7 @@ class Check(PropertyCheck):
             if a: out.append(a)
         return out
 
-    def oracle(self, case, obs):
+    def _oracle1(self, case, obs):
         fails = []
         req = case["sni"] or case["local"]
         in_domain = classify(req) is not None and (case["addr"] is None or classify(case["addr"]) is not None)
@@ -479,6 +519,10 @@ class Check(PropertyCheck):
             if not names_match(obs["sans"], classify(req)): fails.append(f"no subjectAltName of the leaf names {req!r} (RFC 6125 rule)")
         elif obs["strict"] == "ok" and not names_match(obs["sans"], classify(req)):
             fails.append(f"strict verifier accepted a leaf none of whose subjectAltNames names {req!r}")   # cross-check of the two references
+        # ... under a strict X.509 verifier: OpenSSL's strict mode on the chain.  Not asked when the configured CA itself has no
+        # SubjectKeyIdentifier: strict mode rejects such a CA certificate whatever the leaf looks like.
+        if obs.get("ca_has_ski") and obs.get("ossl_strict", "ok").startswith("fail"):
+            fails.append(f"OpenSSL (X509_STRICT) rejects the chain: {obs['ossl_strict'][5:]}")
         # "It names only identities taken from the SNI (or local address), the server address and the upstream certificate."
         srcs = self.sources(case)
         extra = [t for t in obs["sans"] if t not in srcs]
@@ -488,6 +532,41 @@ class Check(PropertyCheck):
         if obs["org"] is not None and not (up and up.get("org") and hx(up["org"].encode()) == obs["org"]): fails.append("organization not from the upstream certificate")
         if any(o not in ("2.5.4.3", "2.5.4.10") for o in obs["subject_oids"]): fails.append("unexpected subject attributes")
         return fails
+
+    @staticmethod
+    def _subs(case):
+        return [dict({k: v for k, v in case.items() if k != "hist"}, ca=h[0], sni=h[1]) for h in case["hist"]]
+
+    def oracle(self, case, obs):
+        if "hist" not in case: return self._oracle1(case, obs)
+        return [f"leaf {i + 1} (CA {c['ca']}): {f}" for i, (c, o) in enumerate(zip(self._subs(case), obs["leaves"])) for f in self._oracle1(c, o)]
+
+    def model_lines(self, case):
+        if "hist" not in case: return self._model_lines1(case)
+        return [self._model_lines1(c)[0] for c in self._subs(case)]
+
+    def impl_view(self, case, obs):
+        if "hist" not in case: return self._impl_view1(case, obs)
+        return [self._impl_view1(c, o) for c, o in zip(self._subs(case), obs["leaves"])]
+
+    def classify(self, case, obs):
+        if "hist" not in case: return self._classify1(case, obs)
+        return json.dumps(case, sort_keys=True)
+
+    def branches(self, case, obs):
+        if "hist" not in case: return self._branches1(case, obs)
+        return ["hist:len=%d" % len(case["hist"])] + ["hist:" + b for c, o in zip(self._subs(case), obs["leaves"]) for b in self._branches1(c, o)[:2]]
+
+    def shrink_candidates(self, case):
+        """a history is only meaningful with at least two steps (a one-step 'history' fails only on state left by earlier cases of the
+        same process and would not replay)"""
+        if "hist" in case:
+            if len(case["hist"]) > 2:
+                for i in range(len(case["hist"])):
+                    yield dict(case, hist=case["hist"][:i] + case["hist"][i + 1:])
+            return
+        from common.check import generic_shrink
+        yield from generic_shrink(case)
 
     def known_selftest(self):
         """doctored observations just outside each lenient branch must be rejected (independent of the tree under test)"""
@@ -502,6 +581,8 @@ class Check(PropertyCheck):
             (case("example.com"), dict(good, strict="fail:no matching subjectAltName"), True),
             (case("example.com"), dict(good, valid_now=False), True), (case("example.com"), dict(good, eku=[]), True),
             (case("example.com"), dict(good, sig_ok=False), True), (case("example.com"), dict(good, is_ca=True), True),
+            (case("example.com"), dict(good, ca_has_ski=True, ossl_strict="fail:authority and subject key identifier mismatch"), True),
+            (case("example.com"), dict(good, ca_has_ski=False, ossl_strict="fail:Missing Subject Key Identifier"), False),   # the CA's own deficiency
             (case("example.com"), dict(good, sans=good["sans"] + [d("evil.example")]), True),               # a name from nowhere
             (case("example.com"), dict(good, org=hx(b"Evil Inc")), True),
             # raised: excused only when the case's own names are not encodable
@@ -516,11 +597,11 @@ class Check(PropertyCheck):
             (case("x_y.example", up=wild_up), dict(und, sans=[d("*.example"), "i:" + hx(b"10.0.0.1")], cn=hx(b"*.example")), False),    # one label below: covered
         ]
         for c, o, want_fail in checks:
-            got = bool(self.oracle(c, o))
+            got = bool(self._oracle1(c, o))
             assert got == want_fail, f"C16 oracle selftest: expected {'a failure' if want_fail else 'no failure'} for {json.dumps(c)[:200]} / {json.dumps(o)[:200]}: {self.oracle(c, o)}"
 
     # ---- model tie ----------------------------------------------------------------------------------------------
-    def model_lines(self, case):
+    def _model_lines1(self, case):
         up = case["up"] if case["upstream_opt"] else None
         if up is None:
             upf = "none"
@@ -537,9 +618,9 @@ class Check(PropertyCheck):
         return [f"leaf {ski} {upf} {sni} {src(case['local'])} {addr}"]
 
     def model_obs(self, case, replies):
-        return replies[0]
+        return list(replies) if "hist" in case else replies[0]
 
-    def impl_view(self, case, obs):
+    def _impl_view1(self, case, obs):
         if obs["raised"]: return "raised"
         o = lambda v: "none" if v is None else v
         crl = obs["crl"][0] if obs["crl"] else None
@@ -547,10 +628,10 @@ class Check(PropertyCheck):
         return (f"cn={o(obs['cn'])};org={o(obs['org'])};crit={int(obs['san_critical'])};sans={','.join(obs['sans']) or 'nil'};crl={o(crl)};"
                 f"aki={obs['aki']};eku={eku};nb={obs['nb']};na={obs['nb'] + obs['dur']}")
 
-    def classify(self, case, obs):
+    def _classify1(self, case, obs):
         return None if obs["raised"] else (case["ca"], case["sni"], case["local"], case["addr"], str(case["up"]), case["upstream_opt"])
 
-    def branches(self, case, obs):
+    def _branches1(self, case, obs):
         if obs["raised"]: return ["raised:" + obs["raised"]]
         b = ["ca:" + case["ca"], "strict:" + obs["strict"].split(":")[0], "cn:" + ("present" if obs["cn"] else "absent"),
              "san-critical" if obs["san_critical"] else "san-noncritical", "upstream:" + ("used" if case["up"] and case["upstream_opt"] else "none")]
